@@ -111,6 +111,8 @@ struct Ctx {
     params: Params,
     keys: Vec<(SaitoPublicKey, SaitoPrivateKey)>,
     it: Interner,
+    /// blocks as they were handed over (before add_block set in-memory flags), by hash
+    given: BTreeMap<SaitoHash, Block>,
     nonce: u64,
     genesis_ledger: Vec<u64>,
     ops: Vec<String>,
@@ -165,6 +167,7 @@ impl Ctx {
             params,
             keys,
             it: Interner::default(),
+            given: BTreeMap::new(),
             nonce: 0,
             genesis_ledger: vec![],
             ops: vec![],
@@ -180,6 +183,7 @@ impl Ctx {
             debug,
         };
         c.genesis_ledger = c.ledger();
+        c.given.insert(g.hash, g);
         c
     }
 
@@ -498,6 +502,7 @@ impl Ctx {
         if !pre.txs.is_empty() {
             self.block_with_pool = true;
         }
+        self.given.insert(b.hash, block.clone());
         let r = self.node.add_block(block.clone()).await;
         let post = self.snap();
         self.stat(&format!("block:{}:{:?}", label, r));
@@ -726,7 +731,10 @@ impl Ctx {
         let mut chain: Vec<Block> = vec![];
         let mut h = self.node.blockchain.get_latest_block_hash();
         while let Some(b) = self.node.blockchain.get_block(&h) {
-            chain.push(b.clone());
+            match self.given.get(&b.hash) {
+                Some(g) => chain.push(g.clone()),
+                None => return false,
+            }
             h = b.previous_block_hash;
             if h == [0; 32] {
                 break;
@@ -1116,7 +1124,11 @@ fn main() {
     if !debug {
         std::panic::set_hook(Box::new(|_| {}));
     }
+    let only: Option<usize> = std::env::var("C14_ONLY").ok().map(|v| v.parse().unwrap());
     for (idx, (kind, seed, len)) in plan.iter().enumerate() {
+        if only.is_some() && only != Some(idx) {
+            continue;
+        }
         let out = catch_unwind(AssertUnwindSafe(|| rt.block_on(run_case(*kind, *seed, *len, debug))));
         match out {
             Ok(o) => {
